@@ -53,7 +53,44 @@ def execute(case):
             return "set_value_for_assignment modified the original relation"
         if new is r:
             return "set_value_for_assignment returned the original object"
-        return same_table(sp, new, case["exp"])
+        msg = same_table(sp, new, case["exp"])
+        if msg:
+            return msg
+        # the same call on tables of other numpy types holding the same numbers, and with the value as a numpy scalar: the
+        # result is the same table (a value that does not fit the table's type must not be truncated, wrapped or refused)
+        import numpy as np
+        from pydcop.dcop.relations import NAryMatrixRelation
+        scope = [sp.vars[v] for v in case["r"]["scope"]]
+        shape = [sp.ds[v] for v in case["r"]["scope"]]
+        tab = [cost_py(c) for c in case["r"]["tab"]]
+        val = cost_py(case["val"])
+        if any(isinstance(x, float) and (x != x or x in (float("inf"), float("-inf"))) for x in tab + [val]):
+            return None
+        # (the table types numpy gives to Python numbers and booleans; narrower types - int8, float32 - only exist if the caller asks for
+        # them, and putting a value they cannot hold into them is outside the statement)
+        for dtype in (np.bool_, np.int64, np.float64):
+            try:
+                arr = np.array(tab).reshape(shape).astype(dtype)
+            except (OverflowError, ValueError):
+                continue
+            if not all(num_eq(float(x), float(y)) for x, y in zip(arr.reshape(-1).tolist(), tab)):
+                continue            # this type cannot hold the table itself
+            for wrap in (lambda x: x, np.float32, np.float64, np.int64):
+                try:
+                    wv = wrap(val)
+                except (OverflowError, ValueError):
+                    continue
+                if not num_eq(float(wv), float(val)) or (wrap is np.int64 and float(val) != int(val)):
+                    continue        # the value itself is not representable in that scalar type
+                r2 = NAryMatrixRelation(scope, arr.copy(), name="r2")
+                try:
+                    new2 = r2.set_value_for_assignment(arg if case["form"] != "dict" else dict(arg), wv)
+                except Exception as e:
+                    return "set_value_for_assignment(%s %s) on a %s table raised %s: %s" % (type(wv).__name__, wv, np.dtype(dtype).name, type(e).__name__, str(e)[:60])
+                m2 = same_table(sp, new2, case["exp"])
+                if m2:
+                    return "on a %s table with the value as %s: %s" % (np.dtype(dtype).name, type(wv).__name__, m2)
+        return None
     if op == "join":
         res = R.join(shared_rel(sp, case["r1"], "r1"), shared_rel(sp, case["r2"], "r2"))
         return same_table(sp, res, case["exp"])
